@@ -106,6 +106,7 @@ def parseOpts (s : String) : Option (List (String × String)) :=
 def step (st : St) (line : String) : St × String :=
   let ws := words line
   match ws with
+  | "stamp" :: _ => (st, "stamp=" ++ genStamp)
   | "reset" :: _ => ({}, "ok")
   | "hist" :: _ => (st, "ok")
   | "conn" :: rest =>
